@@ -360,6 +360,69 @@ theorem vec_run_length_monotone (ops : List OutOp) : ∀ st : VecSt,
 example : ((⟨⟨[1]⟩, []⟩ : VecSt).run [.write [2], .reserve 2, .resv 0 [9], .foreign 0 1 [7], .foreign 5 9 [7]]).tgt.buf = [7, 2, 9, 0] := by
   decide
 
+/-! ### the write position of the fixed-slice target only moves forward -/
+
+theorem slice_write_pos (s t : SliceOut) (bs : Bytes) (h : s.write bs = .ok t) : s.pos ≤ t.pos := by
+  unfold SliceOut.write at h
+  by_cases c : s.remaining < bs.length
+  · simp [c] at h
+  · simp only [c, if_false] at h; injection h with h; subst h; simp
+
+theorem slice_reserve_pos (s t : SliceOut) (k : Nat) (r : Res) (h : s.reserve k = .ok (t, r)) : s.pos ≤ t.pos := by
+  unfold SliceOut.reserve at h
+  by_cases c : s.remaining < k
+  · simp [c] at h
+  · simp only [c, if_false] at h; injection h with h; injection h with h1 _; subst h1; simp
+
+theorem slice_writeRes_pos (s t : SliceOut) (r r' : Res) (bs : Bytes) (h : s.writeRes r bs = .ok (t, r')) :
+    t.pos = s.pos := by
+  unfold SliceOut.writeRes at h
+  by_cases c1 : r.stop < r.start ∨ s.buf.length < r.stop
+  · simp [c1] at h
+  · by_cases c2 : r.stop - r.start < bs.length
+    · simp [c1, c2] at h
+    · simp only [c1, c2, if_false] at h; injection h with h; injection h with h1 _; subst h1; rfl
+
+/-- after ANY operation on the fixed-slice target — failed ones and forged reservations included — the
+    position is at least what it was: nothing already logged can be "un-written" by moving the cursor back. -/
+theorem slice_step_pos_monotone (st : SliceSt) (op : OutOp) : st.tgt.pos ≤ (st.step op).1.tgt.pos := by
+  cases op with
+  | write bs =>
+    simp only [SliceSt.step]
+    cases h : st.tgt.write bs with
+    | error e => simp
+    | ok t => exact slice_write_pos _ _ _ h
+  | reserve k =>
+    simp only [SliceSt.step]
+    cases h : st.tgt.reserve k with
+    | error e => simp
+    | ok p => obtain ⟨t, r⟩ := p; exact slice_reserve_pos _ _ _ _ h
+  | resv i bs =>
+    simp only [SliceSt.step]
+    cases hr : st.res[i]? with
+    | none => simp
+    | some r =>
+      simp only
+      cases h : st.tgt.writeRes r bs with
+      | error e => simp
+      | ok p => obtain ⟨t, r'⟩ := p; exact Nat.le_of_eq (slice_writeRes_pos _ _ _ _ _ h).symm
+  | foreign a b bs =>
+    simp only [SliceSt.step]
+    cases h : st.tgt.writeRes ⟨a, b⟩ bs with
+    | error e => simp
+    | ok p => obtain ⟨t, r'⟩ := p; exact Nat.le_of_eq (slice_writeRes_pos _ _ _ _ _ h).symm
+
+/-- … hence over every history. -/
+theorem slice_run_pos_monotone (ops : List OutOp) : ∀ st : SliceSt, st.tgt.pos ≤ (st.run ops).tgt.pos := by
+  induction ops with
+  | nil => intro st; simp [SliceSt.run]
+  | cons o os ih =>
+    intro st
+    have h1 := slice_step_pos_monotone st o
+    have h2 := ih (st.step o).1
+    simp only [SliceSt.run, List.foldl_cons] at h2 ⊢
+    omega
+
 /-! ### input source -/
 
 /-- reads yield exactly `buf[pos, pos+k)` and advance by `k`; peeks never advance; the cursor stays in
@@ -407,3 +470,8 @@ end Slicec.C12
 #print axioms Slicec.C12.source_read
 #print axioms Slicec.C12.vec_step_length_monotone
 #print axioms Slicec.C12.vec_run_length_monotone
+#print axioms Slicec.C12.slice_write_pos
+#print axioms Slicec.C12.slice_reserve_pos
+#print axioms Slicec.C12.slice_writeRes_pos
+#print axioms Slicec.C12.slice_step_pos_monotone
+#print axioms Slicec.C12.slice_run_pos_monotone
